@@ -144,7 +144,7 @@ PURE_BUILTINS = {
     "sum": sum, "map": map, "filter": filter, "divmod": divmod, "bytearray": bytearray, "iter": iter, "next": next,
     "complex": complex, "Ellipsis": Ellipsis, "NotImplemented": NotImplemented, "super": super, "property": property,
     "staticmethod": staticmethod, "classmethod": classmethod, "id": id, "format": format, "round": round, "callable": callable,
-    "issubclass": issubclass, "slice": slice, "pow": pow, "open": None, "print": None,
+    "issubclass": issubclass, "slice": slice, "pow": pow, "open": None, "print": None, "setattr": setattr,
 }
 for _n in dir(_bi):
     _o = getattr(_bi, _n)
